@@ -32,7 +32,10 @@ Verdict15(r) ==
             /\ (r.small => r.dec = r.orig)
       sd == /\ r.sdEncOk /\ r.sdRawEq /\ r.sdLenOk
             /\ r.sdDecOk /\ r.sdEq
-            /\ r.sdModOk /\ r.sdModEq /\ r.sdModNew
+            \* the stream object read back (Raw present) is decoded, edited (r.edit), re-encoded: the new Raw is what a
+            \* fresh object with the edited content encodes to, Length fits, and it decodes to the edited content
+            /\ r.sdModOk /\ r.sdModEq /\ r.sdModFresh /\ r.sdModLen
+            /\ (r.small => (r.mod = ApplyEdit(r.edit, r.orig) /\ r.modDec = r.mod))
   IN  If(acc => rt, "roundtrip-filter")
       \o If(acc => sd, "roundtrip-streamdict")
       \o If(acc => r.file \in {"ok", "skip"}, "roundtrip-file")
